@@ -279,7 +279,7 @@ class G:
             self.feats.add("spelling.start-end")
             return "<%s%s></%s>" % (k, self.attrs_text(ida + a + pres), k)
         self.feats.add("spelling.start-ws-end")
-        return "<%s%s>%s</%s>" % (k, self.attrs_text(ida + a + pres), r.choice([" ", "\n", "\n    "]), k)
+        return "<%s%s>%s</%s>" % (k, self.attrs_text(ida + a + pres), r.choice([" ", "\n", "\n    ", "\t", "\n\t", "\r\n  ", "\r\n\t", " \t "]), k)
 
     def defs(self):
         r = self.r
